@@ -83,7 +83,7 @@ void cache::clear(const hash_t &h)
 /// \return      the fitness of the individual. If the individuals isn't
 ///              present returns an empty fitness
 ///
-const fitness_t &cache::find(const hash_t &h) const
+fitness_t cache::find(const hash_t &h) const
 {
   std::shared_lock lock(mutex_);
 
